@@ -968,6 +968,57 @@ def r5_callers(program, rep):
     rep.floor("C11-R5", 6)
 
 
+def r5_walk_vector(program, rep):
+    """The vector a router walks with longest_dimension_first from a start
+    chip is the shortest path computed from THAT start to the destination
+    in hand - on every pass: a vector kept from an earlier destination (or
+    a constant) leads somewhere else."""
+    from ..terms import one_level
+    NER = "rig.place_and_route.route.ner"
+    fn = program.get(NER + ":ner_net")
+    T = Terms(fn)
+    cs = calls_in(fn, "longest_dimension_first")
+    if not cs:
+        raise AnalysisError("ner_net: longest_dimension_first is not called")
+    for c in cs:
+        n = T.cfg.node_containing(c)
+        ldf = program.get("rig.place_and_route.route.utils:"
+                          "longest_dimension_first")
+        b = bind(c, ldf, skip_self=False)
+        fs = formals(ldf)
+        if fs[0] not in b or fs[1] not in b:
+            raise AnalysisError("ner_net: arguments of the walk")
+        v = T.term(b[fs[0]], n)
+        START = plain(T.term(b[fs[1]], n))
+        alts = [plain(x) for x in (one_level(v) if v[0] in ("mu", "phi")
+                                   else [v])]
+        good, other = [], []
+        for a in alts:
+            if a[0] == "call" and a[1][0] == "global" and a[1][1] in (
+                    "shortest_torus_path", "shortest_mesh_path") and \
+                    len(a[2]) >= 2:
+                good.append(a)
+            else:
+                other.append(a)
+        if not good:
+            raise AnalysisError("ner_net: the vector walked is not the "
+                                "result of shortest_torus_path / "
+                                "shortest_mesh_path in a form that is read")
+        XYZ = ("call", ("global", "to_xyz"), (START,), ())
+        ok = not other and all(a[2][0] in (XYZ, START) for a in good)
+        rep.check(ok, "C11-R5", qual(fn), "the vector walked from a chip is "
+                  "the shortest path computed from that chip, on every pass "
+                  "of the loop over the destinations",
+                  construct="walk vector", node=c,
+                  fail="the vector handed to longest_dimension_first is not "
+                       "always the shortest path from the chip the walk "
+                       "starts at: %s" % (
+                           "it can also be %s (kept from an earlier pass or "
+                           "never computed for this one)" % show(other[0])[
+                               :60] if other else "it is computed from "
+                           "another chip"))
+
+
 def check(program, rep):
     program.module(GEO)
     folder = Folder(program)
@@ -976,6 +1027,7 @@ def check(program, rep):
     rep.guard("C11-R3", r3_closed_forms, program, folder, rep)
     rep.guard("C11-R4", r4_stateless, program, rep)
     rep.guard("C11-R5", r5_callers, program, rep)
+    rep.guard("C11-R5", r5_walk_vector, program, rep)
     return finish(rep, program, EXPLANATION, NOT_DECIDED,
                   trusted=["link vector table VEC in rules/C11.py",
                            "ORDTYPE evaluator"], exhaustive=True)
